@@ -50,6 +50,14 @@ pub struct Shared {
 /// the running task may continue is a branch point, not only the designated ones. Used for the small
 /// queue-level harnesses, where check-then-act windows between two lock acquisitions matter.
 pub static ALL_POINTS: AtomicBool = AtomicBool::new(false);
+/// Default-choice policy at hand-offs. false: lowest task id first (the producer is preferred);
+/// true: round robin starting after the task that ran last (a delayed producer stays delayed until every
+/// worker has blocked). Both define a canonical order, so replay is deterministic; exploring both covers
+/// "producer always early" and "producer late" families within the same deviation bound.
+pub static ROUND_ROBIN: AtomicBool = AtomicBool::new(false);
+/// Third canonical order: task 0 (the producer / main task) LAST, the other tasks ascending. One deviation
+/// at a producer point then keeps the producer suspended until every other task has blocked.
+pub static MAIN_LAST: AtomicBool = AtomicBool::new(false);
 
 thread_local! {
     static CUR: RefCell<(Vec<u8>, Vec<Branch>, usize)> = RefCell::new((Vec::new(), Vec::new(), 0));
@@ -151,6 +159,18 @@ impl Scheduler for PbDfs {
         let mut ids: Vec<usize> = runnable.iter().map(|t| usize::from(t.id())).collect();
         ids.sort();
         let cur: Option<usize> = current.map(usize::from);
+        if MAIN_LAST.load(Ordering::Relaxed) {
+            if ids.first() == Some(&0) && ids.len() > 1 {
+                ids.rotate_left(1);
+            }
+        } else if ROUND_ROBIN.load(Ordering::Relaxed) {
+            if let Some(c) = cur {
+                // cyclic order starting just after the current task
+                let split = ids.iter().position(|&x| x > c).unwrap_or(ids.len());
+                ids.rotate_left(split);
+                // keep `c` itself (if runnable) at the end of the cycle; the Point case moves it to the front below
+            }
+        }
         let cur_enabled = cur.map_or(false, |c| ids.contains(&c));
         let (kind, enabled): (u8, Vec<usize>) = if cur.is_none() {
             (0, ids.clone())
